@@ -24,22 +24,30 @@ pub struct Case {
     pub cuts: Vec<usize>,
 }
 
+/// removes the inserted values; a later stage may have inserted its value *inside* the markup inserted by an
+/// earlier one (`<i>v1 v2</i>`), so the passes are repeated until nothing changes
 fn strip_values(out: &[u8], values: &[String]) -> Vec<u8> {
     let mut values: Vec<&[u8]> = values.iter().map(|v| v.as_bytes()).filter(|v| !v.is_empty()).collect();
     values.sort_by_key(|v| std::cmp::Reverse(v.len()));
-    let mut res = Vec::with_capacity(out.len());
-    let mut i = 0;
-    'outer: while i < out.len() {
-        for v in &values {
-            if out[i..].starts_with(v) {
-                i += v.len();
-                continue 'outer;
+    let mut cur = out.to_vec();
+    loop {
+        let mut res = Vec::with_capacity(cur.len());
+        let mut i = 0;
+        'outer: while i < cur.len() {
+            for v in &values {
+                if cur[i..].starts_with(v) {
+                    i += v.len();
+                    continue 'outer;
+                }
             }
+            res.push(cur[i]);
+            i += 1;
         }
-        res.push(out[i]);
-        i += 1;
+        if res.len() == cur.len() {
+            return res;
+        }
+        cur = res;
     }
-    res
 }
 
 /// can `s` be obtained from `b` by deleting zero or more substrings that start with '<' and end with '>'
@@ -169,7 +177,9 @@ pub fn check(body: &[u8], fc: &FilterCase, cuts: &[usize]) -> Verdict {
     };
 
     // known class F4: exactly the bytes held back before the failing call are missing
-    if run.error_at.is_some() && !run.held_before_error.is_empty() {
+    // (only when the input really is something the chain cannot process: here, bytes that are not valid UTF-8 —
+    // an error state on a valid UTF-8 body is not this finding, whatever happens to the held bytes)
+    if run.error_at.is_some() && !run.held_before_error.is_empty() && std::str::from_utf8(body).is_err() {
         let p = run.out_len_before_error.min(run.out.len());
         let mut repaired = run.out[..p].to_vec();
         repaired.extend_from_slice(&run.held_before_error);
